@@ -111,6 +111,14 @@ func genC08(tier string, seed uint64, emit func(string)) {
 		}
 		emit("EV 2 " + good.String() + " " + bad.String() + " set:0 mut:1 vsign:g1 ver:1 set:1 sign:g1 set:0 vsign:g2 mut:1 vsign:g2")
 	}
+	// JSON gates: ValidateAndEncodeClaimsToJSON / DecodeAndValidateClaimsFromJSON against their twins (texts that need escaping included)
+	nj := 0
+	genC12(tier, seed, func(line string) {
+		if nj%5 == 0 || tier == "thorough" {
+			emit(line)
+		}
+		nj++
+	})
 	// decoding gates: the C04 tokens
 	genC04(tier, seed, func(line string) {
 		if strings.HasPrefix(line, "DEC ") {
